@@ -307,7 +307,7 @@ func (s *Session) settle() {
 	stable := 0
 	last := -1
 	for i := 0; ; i++ {
-		for k := 0; k < 4; k++ {
+		for k := 0; k < 8; k++ {
 			runtime.Gosched()
 		}
 		seq := s.Log.Seq()
@@ -323,7 +323,9 @@ func (s *Session) settle() {
 		}
 		if ok && seq == last {
 			stable++
-			if stable >= 3 {
+			// (six consecutive identical observations: with three, one run in ~30 000 on a heavily loaded
+			// machine still reported a quiescent point too early)
+			if stable >= 6 {
 				return
 			}
 		} else {
